@@ -81,6 +81,9 @@ func (q reqSpec) build() *http.Request {
 func (q reqSpec) defaultTransport() reqSpec {
 	d := q
 	d.Mode, d.Cuts, d.EOFWithData, d.Transport = "", nil, false, ""
+	if q.Transport == "json-whitespace-padding" {
+		d.Body = bytes.TrimSpace(q.Body)
+	}
 	if strings.HasPrefix(q.Transport, "gzip-") && q.Body != nil {
 		if raw, err := wire.Gunzip(q.Body); err == nil {
 			d.Body = wire.Gzip(raw)
@@ -90,7 +93,9 @@ func (q reqSpec) defaultTransport() reqSpec {
 }
 
 var transportFeatures = []string{"", "h2-unknown-length", "", "h1-chunked", "gzip-members=2", "", "h2-content-length", "fragmented-reads", "",
-	"h1-unknown-length", "gzip-members=3", "", "fragmented-reads", "gzip-empty-member", "h2-unknown-length"}
+	"h1-unknown-length", "gzip-members=3", "", "fragmented-reads", "gzip-empty-member", "h2-unknown-length", "json-whitespace-padding"}
+
+var jsonPads = []string{" ", "\n", "\r\n\t ", "\t\t", "  \n\n  "}
 
 // gzipMembers compresses raw as n gzip members cut at random offsets (RFC
 // 1952: a gzip file is a series of members, its content their concatenation).
@@ -140,6 +145,16 @@ func applyTransport(rng *rand.Rand, q *reqSpec, feature string) {
 		default:
 			q.Body = gzipMembers(rng, raw, 1+rng.Intn(2), true)
 		}
+	case feature == "json-whitespace-padding":
+		// JSON text may be surrounded by white space (RFC 8259)
+		ct := ""
+		if v := q.Header["Content-Type"]; len(v) > 0 {
+			ct = v[0]
+		}
+		if gz || (ct != "" && ct != "application/json") || len(q.Body) == 0 {
+			return
+		}
+		q.Body = []byte(jsonPads[rng.Intn(len(jsonPads))] + string(q.Body) + jsonPads[rng.Intn(len(jsonPads))])
 	case feature == "fragmented-reads":
 		if len(q.Body) == 0 {
 			return
@@ -617,10 +632,22 @@ func (b bodyEnc) isJSON() bool { return b.ctype == "" || b.ctype == "application
 // custom reports whether the content type needs a mux with the extra codecs.
 func (b bodyEnc) custom() bool { return isCustomType(b.ctype) }
 
-func (b bodyEnc) encode(m proto.Message) ([]byte, error) {
+func (b bodyEnc) encode(m proto.Message) ([]byte, error) { return b.encodeFor("", m) }
+
+// encodeFor encodes for a mux of the given kind (on the replaced-codecs mux
+// application/json and application/protobuf are the marked codecs).
+func (b bodyEnc) encodeFor(kind string, m proto.Message) ([]byte, error) {
 	var raw []byte
 	var err error
+	ct := b.ctype
+	if ct == "" {
+		ct = "application/json"
+	}
 	switch {
+	case markOf(kind, ct) == altJSONMagic && !isCustomType(ct):
+		raw, err = altJSONCodec{}.Marshal(m)
+	case markOf(kind, ct) == altProtoMagic && !isCustomType(ct):
+		raw, err = altProtoCodec{}.Marshal(m)
 	case b.isJSON():
 		raw, err = protojson.MarshalOptions{UseProtoNames: b.jsonFl&1 != 0, UseEnumNumbers: b.jsonFl&2 != 0, Multiline: b.jsonFl&4 != 0}.Marshal(m)
 	case b.ctype == ctAltJSON:
